@@ -129,4 +129,7 @@ def templates(cfg):
     # --- table order feeds window functions without arrange= (documented equivalence, C15)
     T("tableorder.grouped_shift", lambda p, t: t >> p.group_by(t.g) >> p.arrange(t.a.nulls_last(), t.b.nulls_last()) >> p.mutate(y=t.b.shift(1)) >> p.ungroup())
     T("tableorder.row_number", lambda p, t: t >> p.arrange(t.a.descending().nulls_last(), t.b.nulls_last()) >> p.mutate(y=p.row_number()))
+    from . import temporal
+
+    out += temporal.templates_for("C05", cfg)
     return out
